@@ -1255,7 +1255,12 @@ fn simulate_run(seed: u64, run: u64, fault_free: bool, stats: &mut Stats) -> (Sc
         .batch_hash
         .wrapping_add(pool::batch_mix(run ^ if fault_free { 1 << 62 } else { 0 }, log.finish()));
     if run < 2 && !fault_free {
-        stats.samples.push(json!({"run": run, "script": script_to_json(&Script { seed, run, fault_free, enumerate, ops: ops.clone() })}));
+        // (the sample must not depend on which worker process happened to execute the run: no "env")
+        let mut sj = script_to_json(&Script { seed, run, fault_free, enumerate, ops: ops.clone() });
+        if let Some(m) = sj.as_object_mut() {
+            m.remove("env");
+        }
+        stats.samples.push(json!({"run": run, "script": sj}));
     }
     (Script { seed, run, fault_free, enumerate, ops }, found)
 }
